@@ -9,10 +9,10 @@ Open Scope string_scope.
 Open Scope list_scope.
 
 (* a selection with what the sanitizer reads: alias, name, named type of the field definition, number of directives;
-   for a fragment its type condition and the name of the type it is spread in (ObjectDefinition) *)
+   for a fragment its type condition, the name of the type it is spread in (ObjectDefinition) and its number of directives *)
 Inductive ssel :=
 | SanField (alias name ty : string) (dirs : nat) (sub : list ssel)
-| SanFrag (cond odef : string) (sub : list ssel).
+| SanFrag (cond odef : string) (dirs : nat) (sub : list ssel).
 
 Inductive tkind := KIface | KUnion | KOther.
 Record sschema := mkSS {
@@ -45,19 +45,19 @@ Definition path_key (ip : list string) : string := String.concat "." ip.
 Fixpoint contains_field (n : string) (s : ssel) {struct s} : bool :=
   match s with
   | SanField _ n' _ _ _ => n' =? n
-  | SanFrag _ _ sub => (fix any (l : list ssel) := match l with [] => false | x :: r => contains_field n x || any r end) sub
+  | SanFrag _ _ _ sub => (fix any (l : list ssel) := match l with [] => false | x :: r => contains_field n x || any r end) sub
   end.
 Definition contains (ss : list ssel) (n : string) : bool := existsb (contains_field n) ss.
 
-Definition id_helper : ssel := SanField "" "id" "id" 0 [].
-Definition typename_helper : ssel := SanField "" "__typename" "String" 0 [].
+Definition id_helper : ssel := SanField "id" "id" "id" 0 [].
+Definition typename_helper : ssel := SanField "__typename" "__typename" "String" 0 [].
 
 (* selectionSetHasFieldNamed: on this level only *)
 Definition has_direct (ss : list ssel) (n : string) : bool :=
-  existsb (fun s => match s with SanField _ n' _ _ _ => n' =? n | SanFrag _ _ _ => false end) ss.
+  existsb (fun s => match s with SanField _ n' _ _ _ => n' =? n | SanFrag _ _ _ _ => false end) ss.
 (* isFragmentOnTypeContainsField: a fragment on that very type, on this level, selects the field (at any depth of fragments) *)
 Definition frag_has (ss : list ssel) (t n : string) : bool :=
-  existsb (fun s => match s with SanFrag c _ sub => (c =? t) && contains sub n | SanField _ _ _ _ _ => false end) ss.
+  existsb (fun s => match s with SanFrag c _ _ sub => (c =? t) && contains sub n | SanField _ _ _ _ _ => false end) ss.
 
 (* addScrubFieldsToSelectionSet(ctx, selectionSet, typename) -> selection set, names of the fields it added *)
 Definition add_scrub_fields (tm : tmap) (sc : sschema) (ss : list ssel) (t : string) : list ssel * list string :=
@@ -77,7 +77,7 @@ Definition add_scrub_fields (tm : tmap) (sc : sschema) (ss : list ssel) (t : str
   else (id_helper :: ss1, added1 ++ ["id"]).
 
 (* addSelectionSetToSanitizedResult: a field whose response key (Alias) is already among the fields of s is dropped *)
-Definition alias_of (s : ssel) : option string := match s with SanField a _ _ _ _ => Some a | SanFrag _ _ _ => None end.
+Definition alias_of (s : ssel) : option string := match s with SanField a _ _ _ _ => Some a | SanFrag _ _ _ _ => None end.
 Definition add_to_result (s : list ssel) (new : list ssel) : list ssel :=
   s ++ filter (fun x => match alias_of x with
                         | None => true
@@ -85,26 +85,26 @@ Definition add_to_result (s : list ssel) (new : list ssel) : list ssel :=
                         end) new.
 
 (* sanitizeUnionInlineFragment(ctx, sanitized children, fragment) *)
-Definition sanitize_union (children : list ssel) (cond odef : string) : list ssel :=
+Definition sanitize_union (children : list ssel) (cond odef : string) (dirs : nat) : list ssel :=
   let inner := fold_left (fun acc sel =>
                             match sel with
-                            | SanFrag c o sub => if (o =? odef) && (c =? cond) then add_to_result acc sub else add_to_result acc [sel]
+                            | SanFrag c o _ sub => if (o =? odef) && (c =? cond) then add_to_result acc sub else add_to_result acc [sel]
                             | _ => add_to_result acc [sel]
                             end) children [] in
-  if cond =? odef then inner else [SanFrag cond odef inner].
+  if cond =? odef then inner else [SanFrag cond odef dirs inner].
 
 (* sanitizeInterfaceInlineFragment: a fragment on one of the interface's possible types stays; any other one is copied
    into one fragment per possible type, each holding the fragment's fields (before the fix each copy held what the
    selection set held when it was made, earlier copies included: `... on N1 { ... on N0 { } }`, which no service accepts) *)
-Definition sanitize_iface (sc : sschema) (children : list ssel) (cond odef : string) : list ssel :=
+Definition sanitize_iface (sc : sschema) (children : list ssel) (cond odef : string) (dirs : nat) : list ssel :=
   let pts := possible_of sc odef in
-  if smem cond pts then [SanFrag cond odef children]
+  if smem cond pts then [SanFrag cond odef dirs children]
   else
     (* a fragment on ANOTHER abstract type applies to the possible types both have, and its fields are not selected for
        the other objects of the interface (since the fix; before, they were hoisted to the level of the interface) *)
     let partial := (match kind_of sc cond with KOther => false | _ => true end) && negb (cond =? odef) in
     let pts' := if partial then filter (fun pt => smem pt (possible_of sc cond)) pts else pts in
-    fold_left (fun acc pt => add_to_result acc [SanFrag pt pt children]) pts' (if partial then [] else children).
+    fold_left (fun acc pt => add_to_result acc [SanFrag pt pt dirs children]) pts' (if partial then [] else children).
 
 (* setMissingScrubFieldsForFieldSelectionSet *)
 Definition set_missing (sc : sschema) (ip : list string) (alias ty : string) (sel : list ssel) (s : scrub) (added : list string) : scrub :=
@@ -130,8 +130,37 @@ Definition unset_level (ss : list ssel) (ip : list string) (s : scrub) : scrub :
                match x with
                | SanField a n _ d _ =>
                    if (a =? n) && Nat.eqb d 0 && ((n =? "id") || (n =? "__typename")) then sc_unset acc ip n else acc
-               | SanFrag _ _ _ => acc
+               | SanFrag _ _ _ _ => acc
                end) ss s.
+
+(* clientSelectedHelpers: the helper fields the client selects himself inside the fragments of a level (no alias, no
+   directives, fragments with directives not entered), each with the types of the objects it is selected for.
+   types = None: every type (a field on the level itself: the closing loop above handles it) *)
+Definition narrow_types (sc : sschema) (types : option (list string)) (cond : string) : option (list string) :=
+  if cond =? "" then types
+  else
+    let matching := match kind_of sc cond with KOther => [cond] | _ => possible_of sc cond end in
+    match types with
+    | None => Some matching
+    | Some ts => Some (filter (fun t => smem t ts) matching)
+    end.
+Fixpoint client_sel (sc : sschema) (types : option (list string)) (s : ssel) {struct s} : list (string * string) :=
+  match s with
+  | SanField a n _ d _ =>
+      if (a =? n) && Nat.eqb d 0 && ((n =? "id") || (n =? "__typename"))
+      then match types with Some ts => map (fun t => (t, n)) ts | None => [] end
+      else []
+  | SanFrag c _ d sub =>
+      if Nat.eqb d 0
+      then (fix go (l : list ssel) := match l with [] => [] | x :: r => client_sel sc (narrow_types sc types c) x ++ go r end) sub
+      else []
+  end.
+Definition client_selected (sc : sschema) (ss : list ssel) : list (string * string) := flat_map (client_sel sc None) ss.
+(* ScrubFields.UnsetForType *)
+Definition sc_unset_type (s : scrub) (path : list string) (t field : string) : scrub :=
+  filter (fun e => negb (path_eqb (fst (fst e)) path && (snd (fst e) =? t) && (snd e =? field))) s.
+Definition unset_selected (sc : sschema) (path : list string) (sub : list ssel) (s : scrub) : scrub :=
+  fold_left (fun acc h => sc_unset_type acc path (fst h) (snd h)) (client_selected sc sub) s.
 
 (* one selection of sanitizeSelectionSet's loop: (result so far, scrub fields so far) -> the same after it *)
 Fixpoint san_sel (tm : tmap) (sc : sschema) (ip : list string) (s : ssel) (acc : list ssel * scrub) {struct s} : list ssel * scrub :=
@@ -148,9 +177,11 @@ Fixpoint san_sel (tm : tmap) (sc : sschema) (ip : list string) (s : ssel) (acc :
           let scr1 := sc_merge scr sf in
           let '(child', added) := add_scrub_fields tm sc child ty in
           let scr2 := set_missing sc ip a ty child' scr1 added in
-          (add_to_result result [SanField a n ty d child'], scr2)
+          (* since the fix: what the client selects himself through a fragment stays for the objects it applies to,
+             whichever fragment added it as a helper too *)
+          (add_to_result result [SanField a n ty d child'], unset_selected sc (ip ++ [a]) sub scr2)
       end
-  | SanFrag c o sub =>
+  | SanFrag c o fd sub =>
       let '(child, sf) :=
         (fix go (l : list ssel) (acc' : list ssel * scrub) := match l with [] => acc' | x :: r => go r (san_sel tm sc ip x acc') end)
           sub ([], []) in
@@ -161,8 +192,8 @@ Fixpoint san_sel (tm : tmap) (sc : sschema) (ip : list string) (s : ssel) (acc :
          before, under the condition's own name, which no object carries) *)
       let scr2 := set_frag sc ip c scr1 added in
       match kind_of sc o with
-      | KIface => (add_to_result result (sanitize_iface sc child' c o), scr2)
-      | KUnion => (add_to_result result (sanitize_union child' c o), scr2)
+      | KIface => (add_to_result result (sanitize_iface sc child' c o fd), scr2)
+      | KUnion => (add_to_result result (sanitize_union child' c o fd), scr2)
       | KOther => (add_to_result result child', scr2)
       end
   end.
